@@ -48,3 +48,81 @@ def strict_routing(rep, prop, seed, n, tier):
     return {"kind": "history", "oracle": "observed '%s' (or other fields differ), expected '%s'" % (tail[:200], model[i].split(" || ")[-1][:200]),
             "case": {"line": cases[i], "format": "nodes layout 2 # items: q <request> [@ask steps] | mb slot to | mk hexkey"},
             "impl": impl[i][:4000], "model": model[i][:4000], "failing_cases": len(mm)}
+
+
+def replica_routing(rep, prop, seed, tier):
+    """end to end over histories of replica assignments, unreachable masters, lost connections and load, with a periodic refresh
+    (c14e2e) and with redirection-triggered refreshes only (c14e2et): the first hop of every command is the master owning the slot
+    (writes, and reads under the master strategy) or one of its replicas; replies are the single server's.  Returns a violation dict or None."""
+    import binascii
+    quick = tier == "quick"
+    PROP = prop
+    found = False
+    result = None
+    def e2e_oracle(cases2, impl2, triggered):
+        bad = []
+        for i, c in enumerate(cases2):
+            hd, ops = c.split(" # ")
+            strategy, layout = int(hd.split()[0]), hd.split()[2]
+            owner = {}
+            ranges = []
+            for r_ in layout.split(","):
+                lohi, nd = r_.split("=")
+                lo, hi = lohi.split("-")
+                ranges.append((int(lo), int(hi), int(nd)))
+            def owner_of(hexkey):
+                sl = binascii.crc_hqx(bytes.fromhex(hexkey), 0) % 16384
+                return [nd for lo, hi, nd in ranges if lo <= sl <= hi][0]
+            outs = impl2[i].split()
+            store, down, wrong_in_segment, k = {}, set(), 0, 0
+            for o in ops.split():
+                if o[0] in "amk" or (o[0] in "du" and not o[1:].isdigit()):
+                    wrong_in_segment = 0
+                    continue
+                if o[0] == "d":
+                    down.add(int(o[1:])); wrong_in_segment = 0; continue
+                if o[0] == "u":
+                    down.discard(int(o[1:])); wrong_in_segment = 0; continue
+                if o[0] == "w":
+                    continue
+                if k >= len(outs):
+                    bad.append((i, "fewer results than requests: %s" % impl2[i][:200])); break
+                r = outs[k]; k += 1
+                if o[0] == "L":
+                    if r != "load:ok":
+                        bad.append((i, "load of fresh keys over four connections: " + r)); break
+                    continue
+                reply, _, tag = r.partition("@")
+                key = o[1:]
+                owner_down = owner_of(key) in down
+                if o[0] == "s":
+                    want, tags = "S4f4b", ("M",)
+                else:
+                    want, tags = ("B76" if key in store else "Bn"), (("M",) if strategy == 0 else ("M", "R"))
+                if owner_down and reply.startswith("E") and tag == "none":
+                    continue                                   # the owner is unreachable: an error, nothing sent elsewhere
+                if triggered and tag.startswith("X") and reply == want and wrong_in_segment == 0:
+                    wrong_in_segment = 1                        # the one redirection that tells the proxy about the change
+                    if o[0] == "s":
+                        store[key] = True
+                    continue
+                if reply != want or tag not in tags:
+                    bad.append((i, "%s %s: reply %s first sent to %s; a single server answers %s and the command may go to %s only (M = the master owning the slot, R = one of its replicas)%s"
+                                % ("SET" if o[0] == "s" else "GET", key, reply, tag or "nobody", want, "/".join(tags),
+                                   "; the refresh triggered by the first redirection should have corrected the table" if triggered and tag.startswith("X") else "")))
+                    break
+                if o[0] == "s":
+                    store[key] = True
+        return bad
+    fmt_ = ("strategy(0 master,1 both,2 replica) masters layout # ar<m> add replica of m | mr<r>,<m> r now replicates m | d<m>/u<m> master stops/returns | k<n> connections of n reset | "
+            "L load | w refresh | g<hexkey> | s<hexkey>")
+    for mode, n_, what in (("c14e2e", 12 if quick else 250, "Replica assignments changing, masters unreachable, connections lost, load during refreshes (periodic refresh, end to end)"),
+                           ("c14e2et", 8 if quick else 150, "Replica reassignment and lost connections with no periodic refresh (the table follows redirections only, end to end)")):
+        res = differential(rep, PROP, mode, seed + 7, n_, tier, model_modes=[])
+        cases2, impl2 = res["cases"], res["impl"]
+        bad = e2e_oracle(cases2, impl2, mode == "c14e2et")
+        add_corr(rep, what + ": first hop of every command and its reply vs the property's oracle", res, [b[0] for b in bad], len(set(cases2)))
+        if bad and result is None:
+            i, what_ = min(bad, key=lambda x: len(cases2[x[0]]))
+            result = {"kind": "history", "mode": mode, "oracle": what_, "case": {"line": cases2[i], "format": fmt_}, "impl": impl2[i], "failing_cases": len(bad)}
+    return result
